@@ -389,6 +389,37 @@ def r6_min_take(run, F):
     run.ob("R6-SAME-PREDICATE", "delta::parser::parse", preds == ["delta::parser::starts_declaration"] and len(filt) == 1,
            F.where(pb), "the declaration count and the resynchronisation must use the same predicate starts_declaration",
            sample={"find_next_predicates": preds, "count_closures": len(filt)})
+    # the bound `num_possible_declarations + 2` counts iterations that start at a declaration starter: *every* value the loop
+    # stores into the position of the next declaration must be a find_next(starts_declaration) result (on every branch, not
+    # on some), otherwise an iteration can start at any stray token and the loop can end before EndOfSource (assert_eq! fires)
+    def leaves(e):
+        e = hirq.unwrap_trivial(e)
+        if e.get("k") == "If":
+            return leaves(e["then"]) + (leaves(e["else"]) if e.get("else") is not None else [{}])
+        if e.get("k") == "Match":
+            out = []
+            for a in e["arms"]:
+                out += leaves(a["body"])
+            return out
+        if e.get("k") == "Block":
+            return leaves(e["e"]) if e.get("e") is not None else [{}]
+        return [e]
+    start_lids = set()
+    for c in hirq.calls(pb["hir"]):
+        if (hirq.callee(c) or "").endswith("Tokens::starting_from") and c.get("a"):
+            a0 = hirq.unwrap_trivial(c["a"][0])
+            if a0.get("k") == "Path" and a0.get("rk") == "Local":
+                start_lids.add(a0.get("lid"))
+    loops_ = [n for n in walk(pb["hir"]) if n.get("k") == "Match" and "ForLoop" in str(n.get("msrc"))]
+    stores = [n for lp in loops_ for n in walk(lp) if n.get("k") == "Assign" and hirq.unwrap_trivial(n["lhs"]).get("lid") in start_lids]
+    bad = []
+    for n in stores:
+        for lf in leaves(n["rhs"]):
+            if not (lf.get("k") in ("MethodCall", "Call") and (hirq.callee(lf) or "").endswith("Tokens::find_next")):
+                bad.append(lf.get("k") or "()")
+    run.ob("R6-LOOP-STARTS-AT-STARTER", "delta::parser::parse", len(stores) >= 1 and not bad, F.where(pb, stores[0]) if stores else F.where(pb),
+           "inside the declaration loop the position of the next declaration is always the result of find_next(starts_declaration): "
+           "%d store(s), branches that store something else: %s" % (len(stores), bad))
     # starts_declaration covers every token parse_declaration dispatches on (else a declaration could be skipped silently)
     sd = F.body("delta::parser::starts_declaration")
     m = hirq.find_match(sd, min_arms=5)
